@@ -1433,6 +1433,33 @@ def mix_value(rng, depth=0):
     return v
 
 
+def sortable_deep(v, depth=0):
+    """`sortable` for values that hide their dicts inside stdlib containers (deque, ChainMap, OrderedDict, defaultdict, SimpleNamespace,
+    namedtuples) or call objects: every dict anywhere inside must have keys the model can order"""
+    import collections
+    import types
+    if depth > 12:
+        return False
+    while isinstance(v, (P._CommentedValue, P._TrailingCommentedValue)):
+        v = v.value
+    if isinstance(v, dict):
+        # the dict's own keys, judged by `sortable` on a shallow copy with scalar values
+        if not sortable({k: 0 for k in v}):
+            return False
+        return all(sortable_deep(k, depth + 1) and sortable_deep(x, depth + 1) for k, x in v.items())
+    if isinstance(v, collections.ChainMap):
+        return all(sortable_deep(m, depth + 1) for m in v.maps)
+    if isinstance(v, (list, tuple, set, frozenset, collections.deque)):
+        return all(sortable_deep(x, depth + 1) for x in v)
+    if isinstance(v, types.SimpleNamespace):
+        return all(sortable_deep(x, depth + 1) for x in v.__dict__.values())
+    desc = getattr(v, '__verif_call__', None)
+    if desc is not None:
+        c = desc()
+        return all(sortable_deep(a, depth + 1) for a in c.args) and all(sortable_deep(x, depth + 1) for _, x in c.kwargs)
+    return True
+
+
 def mix_chunk(cases):
     import sec_stdlib
     drv = _driver()
@@ -1499,7 +1526,7 @@ def mix_section(tier, seed):
         v = mix_value(rng)
         plain = V.strip_comments(v)
         limits = [(None, 1000), (None, None), (rng.choice([0, 1, 2, 3]), 1000), (None, rng.choice([1, 2, 3])), (rng.choice([1, 2, 3]), rng.choice([1, 2, 5]))]
-        srt = 1 if rng.random() < 0.4 and sortable(plain) and not comment_inside_tuple_key(v) else 0
+        srt = 1 if rng.random() < 0.4 and sortable_deep(v) and not comment_inside_tuple_key(v) else 0
         sets = []
         for (d, m) in rng.sample(limits, 2):
             for _ in range(3):
